@@ -7,6 +7,7 @@ REGISTRY = {
                 extract=[("verify", "ExtractVerify.v", "verify_driver.ml")]),
     "C01": dict(go=["translate"], translate=[("precedence", "GenPrecedence.v")]),
     "C20": dict(go=["c20obs"]),
+    "C03": dict(go=["c03obs", "lexobs"]),
     "C02": dict(go=["c02obs"], extract=[("clos", "ExtractClos.v", "clos_driver.ml")]),
     "core": dict(go=["lexobs", "astobs", "evalobs"],
                  extract=[("lexer", "ExtractLexer.v", "lexer_driver.ml"), ("parser", "ExtractParser.v", "parser_driver.ml"),
